@@ -279,6 +279,17 @@ impl<'tcx> Cx<'tcx> {
         }
         if let Const::Unevaluated(u, _) = c.const_ {
             o.push(("unevaluated", J::s(self.path(u.def))));
+            // the type arguments of an associated constant used in generic code (`<T as Trait>::NAME`): lets the rule
+            // layer pick the impl's constant once T is known
+            let mut targs = vec![];
+            for a in u.args.iter() {
+                if let Some(t) = a.as_type() {
+                    targs.push(J::n(self.ty_id(t)));
+                }
+            }
+            if !targs.is_empty() {
+                o.push(("uargs", J::Arr(targs)));
+            }
             if let Some(p) = u.promoted {
                 o.push(("promoted", J::n(p.as_usize())));
             }
